@@ -323,6 +323,10 @@ def _safe_on_path(p, i, gated):
         return True, 'strict and the source node tested safe'
     if any('_eval_cache_unsafe' in t and ' in ' in t and pol is False for t, pol in facts):
         return True, 'strict and the path is not recorded as unsafe'
+    if any((e.kind == 'call' and (e.callee or '').startswith(('self._eval_cache_unsafe.', 'self._eval_ctx._eval_cache_unsafe.'))) or
+           (e.kind == 'subscr' and (e.callee or '').endswith('._eval_cache_unsafe')) for e in p.events[:i]) or \
+            any('each(self._eval_cache_unsafe' in t for t, _ in facts):
+        return True, 'strict and the record of unsafe paths is scanned before the hand-out (what the scan rejects is decided by R4c)'
     for e in p.events[:i]:
         if e.kind == 'call' and e.attr in ('get_node', 'evaluate_node') and e.recv is not None and e.recv.text in ('self._eval_ctx', 'self') and ('EvalContext.' + e.attr) in gated:
             return True, 'strict and a gated lookup (%s) precedes' % e.callee
@@ -545,6 +549,41 @@ def r6(repo, run):
         raise AnalysisError('C07.R6: expected add_source calls in IncludeNode and RecurseNode (got %d)' % n_calls)
 
 
+# ---- R4c ------------------------------------------------------------------------------------------
+def r4c(repo, run):
+    """EvalContext.get_node evaluated (finite-domain evaluator) over cached paths x paths recorded as unsafe: when the context
+    requires all nodes to be safe, a cached value is handed out only if neither the path itself nor any path below it was produced
+    from an unsafe node (the cached value of a container holds what its descendants evaluated to)"""
+    fi = repo.func('EvalContext.get_node')
+    rows = 0
+    bad = []
+    cached = {'p': 'P', 'p.s': 'S', 'p.s.u': 'U', 'pp': 'PP', 'q': 'Q', 'l': 'L', 'l[0]': 'L0', 'l[1]': 'L1'}
+    for unsafe in ([], ['p.s'], ['p.s.u'], ['l[0]'], ['q'], ['pp'], ['p.s', 'l[1]']):
+        for query in ('p', 'p.s', 'pp', 'q', 'l', 'l[1]'):
+            for strict in (True, False):
+                ctx = Obj('ctx', 'EvalContext', _eval_cache=dict(cached), _eval_cache_unsafe={u: node_obj('unsafe_' + u, 'ConfigNode') for u in unsafe},
+                          _require_all_safe=strict, _cfg=node_obj('cfg', 'ConfigDict'))
+                f = FDE(repo, stubs={'get_list_path'}, stub=lambda name, recv, args, kwargs, q=query: q)
+                r = fde_guard(lambda: f.call(fi, ctx, query))
+                rows += 1
+                below = any(u == query or u.startswith(query + '.') or u.startswith(query + '[') for u in unsafe)
+                want_raise = strict and below
+                if bool(r.raised) != want_raise:
+                    bad.append((query, unsafe, strict, r.raised, r.ret))
+                elif not r.raised and r.ret != cached[query]:
+                    bad.append((query, unsafe, strict, 'returns', r.ret))
+    run.table('C07.R4c', rows, 'EvalContext.get_node over cached paths x unsafe paths x strict')
+    if bad:
+        q, u, st, rz, rt = bad[0]
+        if st and not rz:
+            why = 'in a context that requires all nodes to be safe the cached value of %r is handed out although %s below it was evaluated from an unsafe node: `fn: !call:f {x: !xref p}` with `p: {s: !unsafe 1}` passes the unsafe value to f' % (q, u)
+        else:
+            why = 'get_node(%r) with unsafe paths %s (strict=%s): %s %r' % (q, u, st, rz or 'returns', rt)
+        run.violation('C07.R4c', fi, 'strict gate of the path cache', why, witness=[str(b)[:200] for b in bad[:5]])
+    else:
+        run.ok('C07.R4c', fi, 'strict gate of the path cache (%d rows)' % rows, 'raises iff the path or a path below it is recorded as unsafe; siblings with a common name prefix unaffected')
+
+
 # ---- R7 -------------------------------------------------------------------------------------------
 def r7(repo, run):
     # (1) metaclass adopt branch: inherited kwargs are assigned onto an already built child
@@ -638,6 +677,7 @@ def check(repo, run, tier):
     g(r2, repo, run)
     g(r3, repo, run)
     g(r4, repo, run)
+    g(r4c, repo, run)
     g(r5, repo, run)
     g(r6, repo, run)
     g(r7, repo, run)
@@ -647,6 +687,7 @@ def check(repo, run, tier):
 
 def mutants(repo):
     return [
+        Mutant('F20-reverted-descendants-unchecked', lambda r: in_func(r, 'EvalContext.get_node', "if not path or unsafe_path == str(path) or unsafe_path.startswith(str(path) + '.') or unsafe_path.startswith(str(path) + '['):", "if unsafe_path == str(path):"), ['C07.R4c']),
         Mutant('call-gate-removed', lambda r: delete_stmt(r, 'CallNode.ayns.on_evaluate_impl', lambda t: '_require_safe' in t), ['C07.R1']),
         Mutant('import-gate-removed', lambda r: delete_stmt(r, 'ImportNode.ayns.on_evaluate_impl', lambda t: '_require_safe' in t), ['C07.R1']),
         Mutant('eval-gate-after-compile', lambda r: in_func(r, 'EvalNode.ayns.on_evaluate_impl', "        self.ayns._require_safe(path)\n", "", 1), ['C07.R1']),
